@@ -1,5 +1,346 @@
-From Coq Require Import ZArith List Bool Lia.
+(* C11 — proofs about the interleaving model Reader/Model.v, for ALL schedules,
+   message lists, queue sizes, handler programs (any nesting depth) and numbers of
+   external TryToReplaceLoop callers. *)
+From Coq Require Import ZArith List Bool Lia Permutation Arith.
 From GoCoap Require Import Reader.Model Reader.Spec.
 Import ListNotations.
 Open Scope Z_scope.
-Lemma placeholder : True. Proof. exact I. Qed.
+
+(* ------------------------------------------------------------------ *)
+(* lists: upd *)
+
+Lemma length_upd {A} (i : nat) (x : A) l : length (upd i x l) = length l.
+Proof. revert i; induction l as [|y r IH]; intros [|j]; cbn; auto. Qed.
+
+Lemma nth_error_upd_same {A} (i : nat) (x : A) l : (i < length l)%nat -> nth_error (upd i x l) i = Some x.
+Proof. revert i; induction l as [|y r IH]; intros [|j] H; cbn in *; try lia; auto. apply IH; lia. Qed.
+
+Lemma nth_error_upd_other {A} (i j : nat) (x : A) l : i <> j -> nth_error (upd i x l) j = nth_error l j.
+Proof. revert i j; induction l as [|y r IH]; intros [|i] [|j] H; cbn; auto; try congruence. Qed.
+
+Lemma upd_split {A} (i : nat) (y : A) l :
+  nth_error l i = Some y -> exists a b, l = a ++ y :: b /\ forall x, upd i x l = a ++ x :: b.
+Proof.
+  revert i; induction l as [|z r IH]; intros [|i] H; cbn in *; try discriminate.
+  - injection H as ->. exists [], r. split; auto.
+  - destruct (IH _ H) as (a & b & E & U). exists (z :: a), b. split.
+    + cbn. now rewrite <- E.
+    + intro x. cbn. now rewrite U.
+Qed.
+
+Lemma nth_error_lt {A} (l : list A) i x : nth_error l i = Some x -> (i < length l)%nat.
+Proof. intro H. apply nth_error_Some. congruence. Qed.
+
+(* ------------------------------------------------------------------ *)
+(* the step function as a relation with one constructor per action of the code *)
+
+Definition st_q (s : st) q := mkSt q (prod s) (ext s) (closed s) (cur s) (loops s) (commits s) (log s).
+
+Inductive Step (c : cfg) (s : st) : act -> st -> Prop :=
+| S_push m r : prod s = m :: r -> (length (queue s) <= cap c)%nat ->
+    Step c s APush (mkSt (queue s ++ [m]) r (ext s) (closed s) (cur s) (loops s) (commits s) (log s))
+| S_close : closed s = false ->
+    Step c s AClose (mkSt (queue s) (prod s) (ext s) true (cur s) (loops s) (commits s) (log s))
+| S_ext k : ext s = S k ->
+    Step c s AExt (try_replace (mkSt (queue s) (prod s) k (closed s) (cur s) (loops s) (commits s) (log s)))
+| S_sel_done l lp : nth_error (loops s) l = Some lp -> l_pc lp = PSelect -> l_done lp = true ->
+    Step c s (ALoop l AltDone) (set_pc s l lp PExit)
+| S_sel_conn l lp : nth_error (loops s) l = Some lp -> l_pc lp = PSelect -> closed s = true ->
+    Step c s (ALoop l AltConn) (set_pc s l lp PExit)
+| S_sel_queue l lp m q : nth_error (loops s) l = Some lp -> l_pc lp = PSelect -> queue s = m :: q ->
+    Step c s (ALoop l AltQueue) (set_pc (st_q s q) l lp (PDeq m))
+| S_deq l lp m a : nth_error (loops s) l = Some lp -> l_pc lp = PDeq m ->
+    Step c s (ALoop l a) (mkSt (queue s) (prod s) (ext s) (closed s) (cur s)
+                               (upd l (mkLoop (l_done lp) false (PBusy m)) (loops s)) (commits s ++ [m]) (log s))
+| S_busy l lp m a : nth_error (loops s) l = Some lp -> l_pc lp = PBusy m ->
+    Step c s (ALoop l a) (mkSt (queue s) (prod s) (ext s) (closed s) (cur s)
+                               (upd l (mkLoop (l_done lp) (l_reading lp) (PRun m (hp c m))) (loops s)) (commits s) (log s ++ [(m, l)]))
+| S_relock l lp m a : nth_error (loops s) l = Some lp -> l_pc lp = PRun m [] ->
+    Step c s (ALoop l a) (with_loops s (upd l (mkLoop (l_done lp) true PCheck) (loops s)))
+| S_hreplace l lp m ops a : nth_error (loops s) l = Some lp -> l_pc lp = PRun m (HReplace :: ops) ->
+    Step c s (ALoop l a) (try_replace (set_pc s l lp (PRun m ops)))
+| S_hnested l lp m r ops a : nth_error (loops s) l = Some lp -> l_pc lp = PRun m (HNested r :: ops) ->
+    Step c s (ALoop l a) (try_replace (set_pc s l lp (PWait m r ops)))
+| S_wait l lp m r ops a : nth_error (loops s) l = Some lp -> l_pc lp = PWait m r ops -> delivered r s = true ->
+    Step c s (ALoop l a) (set_pc s l lp (PRun m ops))
+| S_check l lp a : nth_error (loops s) l = Some lp -> l_pc lp = PCheck ->
+    Step c s (ALoop l a) (set_pc s l lp (if fixed c && l_done lp then PExit else PSelect)).
+
+Lemma step_Step c s a s' : step c s a = Some s' -> Step c s a s'.
+Proof.
+  intro H. destruct a as [| | |l a]; cbn in H.
+  - destruct (prod s) as [|m r] eqn:Ep; try discriminate.
+    destruct (length (queue s) <=? cap c)%nat eqn:El; try discriminate.
+    injection H as <-. apply S_push; auto. now apply Nat.leb_le.
+  - destruct (closed s) eqn:Ec; try discriminate. injection H as <-. now apply S_close.
+  - destruct (ext s) as [|k] eqn:Ee; try discriminate. injection H as <-. now apply S_ext.
+  - unfold step_loop in H.
+    destruct (nth_error (loops s) l) as [lp|] eqn:En; try discriminate.
+    destruct (l_pc lp) as [ |m|m|m ops|m r ops| | ] eqn:Epc; try discriminate.
+    + destruct a.
+      * destruct (l_done lp) eqn:Ed; try discriminate. injection H as <-. eapply S_sel_done; eauto.
+      * destruct (queue s) as [|m q] eqn:Eq; try discriminate. injection H as <-.
+        change (mkSt q (prod s) (ext s) (closed s) (cur s) (loops s) (commits s) (log s)) with (st_q s q).
+        eapply S_sel_queue; eauto.
+      * destruct (closed s) eqn:Ec; try discriminate. injection H as <-. eapply S_sel_conn; eauto.
+    + injection H as <-. eapply S_deq; eauto.
+    + injection H as <-. eapply S_busy; eauto.
+    + destruct ops as [|[|r] ops]; injection H as <-.
+      * eapply S_relock; eauto.
+      * eapply S_hreplace; eauto.
+      * eapply S_hnested; eauto.
+    + destruct (delivered r s) eqn:Ed; try discriminate. injection H as <-. eapply S_wait; eauto.
+    + injection H as <-. eapply S_check; eauto.
+Qed.
+
+(* invariants along runs *)
+Lemma run_invariant (c : cfg) (P : st -> Prop) :
+  (forall s a s', P s -> step c s a = Some s' -> P s') ->
+  forall sched s s', P s -> run c s sched = Some s' -> P s'.
+Proof.
+  intros HS sched. induction sched as [|a r IH]; intros s s' HP HR; cbn in HR.
+  - now injection HR as <-.
+  - destruct (step c s a) as [s1|] eqn:E; try discriminate.
+    apply (IH s1 s'); [eapply HS; eauto | exact HR].
+Qed.
+
+(* invariants that need a side condition on every step of the run *)
+Fixpoint all_steps (Q : st -> act -> bool) (c : cfg) (s : st) (sched : list act) : bool :=
+  match sched with
+  | [] => true
+  | a :: r => Q s a && match step c s a with Some s' => all_steps Q c s' r | None => true end
+  end.
+
+Lemma run_invariant_cond (c : cfg) (Q : st -> act -> bool) (P : st -> Prop) :
+  (forall s a s', P s -> Q s a = true -> step c s a = Some s' -> P s') ->
+  forall sched s s', P s -> all_steps Q c s sched = true -> run c s sched = Some s' -> P s'.
+Proof.
+  intros HS sched. induction sched as [|a r IH]; intros s s' HP HQ HR; cbn in HR, HQ.
+  - now injection HR as <-.
+  - destruct (step c s a) as [s1|] eqn:E; try discriminate.
+    apply andb_true_iff in HQ as [HQ1 HQ2].
+    apply (IH s1 s'); [eapply HS; eauto | exact HQ2 | exact HR].
+Qed.
+
+(* TryToReplaceLoop: either nothing happens or the current loop is busy and is replaced *)
+Lemma try_replace_cases s :
+  try_replace s = s \/
+  exists lc, nth_error (loops s) (cur s) = Some lc /\ l_reading lc = false /\
+    try_replace s = mkSt (queue s) (prod s) (ext s) (closed s) (length (loops s))
+                         (upd (cur s) (mkLoop true false (l_pc lc)) (loops s) ++ [mkLoop false true PSelect])
+                         (commits s) (log s).
+Proof.
+  unfold try_replace. destruct (nth_error (loops s) (cur s)) as [lc|] eqn:E; auto.
+  destruct (l_reading lc) eqn:Er; auto. right. exists lc. repeat split; auto.
+Qed.
+
+(* ------------------------------------------------------------------ *)
+(* Invariant I: shape of the loops.
+   rd_ok : the readingMessages flag of a loop is false exactly while it is between MarkBusy and the re-lock;
+   current loop: not replaced (done open), never blocked in a nested wait, and alive while the connection is open;
+   other loops: replaced (done closed); in the repaired code they never stand at the select or hold a dequeued message. *)
+
+Definition rd_ok (lp : loop) : bool :=
+  match l_pc lp with
+  | PBusy _ | PRun _ _ | PWait _ _ _ => negb (l_reading lp)
+  | PSelect | PDeq _ | PCheck => l_reading lp
+  | PExit => true
+  end.
+Definition cur_ok (op : bool) (lp : loop) : bool :=
+  negb (l_done lp) && match l_pc lp with PWait _ _ _ => false | PExit => negb op | _ => true end.
+Definition old_ok (fx : bool) (lp : loop) : bool :=
+  l_done lp && (negb fx || match l_pc lp with PSelect | PDeq _ => false | _ => true end).
+Definition okl (fx iscur op : bool) (lp : loop) : bool :=
+  rd_ok lp && if iscur then cur_ok op lp else old_ok fx lp.
+
+Definition Iraw (fx : bool) (cu : nat) (ls : list loop) (cl : bool) : Prop :=
+  (cu < length ls)%nat /\
+  forall i lp, nth_error ls i = Some lp -> okl fx (Nat.eqb i cu) (negb cl) lp = true.
+Definition Inv (c : cfg) (s : st) : Prop := Iraw (fixed c) (cur s) (loops s) (closed s).
+
+Lemma Iraw_upd fx cu ls cl l lp x :
+  Iraw fx cu ls cl -> nth_error ls l = Some lp -> okl fx (Nat.eqb l cu) (negb cl) x = true ->
+  Iraw fx cu (upd l x ls) cl.
+Proof.
+  intros [Hc Hall] Hn Hx. split.
+  - now rewrite length_upd.
+  - intros i lq Hi. destruct (Nat.eq_dec l i) as [->|Hne].
+    + rewrite nth_error_upd_same in Hi by (eapply nth_error_lt; eauto). now injection Hi as <-.
+    + rewrite nth_error_upd_other in Hi by auto. eauto.
+Qed.
+
+Lemma Iraw_close fx cu ls : Iraw fx cu ls false -> Iraw fx cu ls true.
+Proof.
+  intros [Hc Hall]. split; auto. intros i lp Hi. specialize (Hall i lp Hi).
+  unfold okl, cur_ok in *. cbn in *. destruct (Nat.eqb i cu); auto.
+  destruct (rd_ok lp), (l_done lp), (l_pc lp); cbn in *; auto.
+Qed.
+
+(* weaker precondition for TryToReplaceLoop: the calling handler's own loop may already be marked as waiting *)
+Definition PreInv (fx : bool) (cu : nat) (ls : list loop) (cl : bool) : Prop :=
+  (cu < length ls)%nat /\
+  forall i lp, nth_error ls i = Some lp ->
+    rd_ok lp = true /\
+    if Nat.eqb i cu then (negb (l_done lp) = true /\ (l_reading lp = true -> cur_ok (negb cl) lp = true))
+    else old_ok fx lp = true.
+
+Lemma Inv_PreInv fx cu ls cl : Iraw fx cu ls cl -> PreInv fx cu ls cl.
+Proof.
+  intros [Hc Hall]. split; auto. intros i lp Hi. specialize (Hall _ _ Hi).
+  unfold okl in Hall. apply andb_true_iff in Hall as [H1 H2]. split; auto.
+  destruct (Nat.eqb i cu); auto. split; auto.
+  unfold cur_ok in H2. now apply andb_true_iff in H2 as [H2 _].
+Qed.
+
+Lemma PreInv_try_replace c s : PreInv (fixed c) (cur s) (loops s) (closed s) -> Inv c (try_replace s).
+Proof.
+  intros [Hc Hall]. destruct (try_replace_cases s) as [E|(lc & Hn & Hr & ->)].
+  - rewrite E. split; auto. intros i lp Hi. destruct (Hall _ _ Hi) as [H1 H2]. unfold okl. rewrite H1. cbn.
+    destruct (Nat.eqb i (cur s)) eqn:Ei; auto.
+    apply Nat.eqb_eq in Ei. subst i. destruct H2 as [_ H2]. apply H2.
+    unfold try_replace in E. rewrite Hi in E. destruct (l_reading lp) eqn:Er; auto.
+    exfalso. apply (f_equal (fun x => length (loops x))) in E. cbn in E. rewrite app_length, length_upd in E. cbn in E. lia.
+  - unfold Inv; cbn. split.
+    + rewrite app_length, length_upd. cbn. lia.
+    + intros i lp Hi.
+      destruct (Nat.lt_ge_cases i (length (loops s))) as [Hlt|Hge].
+      * rewrite nth_error_app1 in Hi by now rewrite length_upd.
+        replace (Nat.eqb i (length (loops s))) with false by (symmetry; apply Nat.eqb_neq; lia).
+        destruct (Nat.eq_dec (cur s) i) as [<-|Hne].
+        -- rewrite nth_error_upd_same in Hi by auto. injection Hi as <-.
+           destruct (Hall _ _ Hn) as [H1 _].
+           unfold okl, rd_ok, old_ok in *. cbn in *. rewrite Hr in H1.
+           destruct (l_pc lc), (fixed c); cbn in *; auto; discriminate.
+        -- rewrite nth_error_upd_other in Hi by auto. destruct (Hall _ _ Hi) as [H1 H2].
+           replace (Nat.eqb i (cur s)) with false in H2 by (symmetry; apply Nat.eqb_neq; lia).
+           unfold okl. now rewrite H1, H2.
+      * rewrite nth_error_app2 in Hi by now rewrite length_upd.
+        rewrite length_upd in Hi.
+        destruct (i - length (loops s))%nat as [|k] eqn:Ek; cbn in Hi.
+        -- injection Hi as <-. replace i with (length (loops s)) by lia. rewrite Nat.eqb_refl. reflexivity.
+        -- destruct k; discriminate.
+Qed.
+
+Lemma Inv_try_replace c s : Inv c s -> Inv c (try_replace s).
+Proof. intro H. apply PreInv_try_replace. now apply Inv_PreInv. Qed.
+
+Lemma PreInv_upd fx cu ls cl l lp x :
+  PreInv fx cu ls cl -> nth_error ls l = Some lp ->
+  (rd_ok x = true /\ if Nat.eqb l cu then (negb (l_done x) = true /\ (l_reading x = true -> cur_ok (negb cl) x = true))
+                     else old_ok fx x = true) ->
+  PreInv fx cu (upd l x ls) cl.
+Proof.
+  intros [Hc Hall] Hn Hx. split.
+  - now rewrite length_upd.
+  - intros i lq Hi. destruct (Nat.eq_dec l i) as [->|Hne].
+    + rewrite nth_error_upd_same in Hi by (eapply nth_error_lt; eauto). now injection Hi as <-.
+    + rewrite nth_error_upd_other in Hi by auto. eauto.
+Qed.
+
+Ltac okl_crush :=
+  unfold okl, rd_ok, cur_ok, old_ok in *; cbn in *;
+  repeat match goal with
+  | H : l_pc ?lp = _ |- _ => rewrite H in *
+  | H : l_done ?lp = _ |- _ => rewrite H in *
+  | H : l_reading ?lp = _ |- _ => rewrite H in *
+  end; cbn in *.
+
+Ltac okl_fin c s l lp :=
+  okl_crush;
+  destruct (Nat.eqb l (cur s)), (l_done lp), (l_reading lp), (fixed c), (closed s);
+  cbn in *; try reflexivity; try discriminate.
+
+Lemma Inv_step c s a s' : Inv c s -> step c s a = Some s' -> Inv c s'.
+Proof.
+  intros HI HS. apply step_Step in HS.
+  destruct HS as [m r Hp Hl | Hc | k He | l lp Hn Hpc Hd | l lp Hn Hpc Hcl | l lp m q Hn Hpc Hq
+                 | l lp m a Hn Hpc | l lp m a Hn Hpc | l lp m a Hn Hpc | l lp m ops a Hn Hpc
+                 | l lp m r ops a Hn Hpc | l lp m r ops a Hn Hpc Hdl | l lp a Hn Hpc];
+    try (apply Inv_try_replace; unfold Inv in *; cbn; auto;
+         eapply Iraw_upd; eauto; pose proof (proj2 HI _ _ Hn) as Ho; okl_fin c s l lp; fail);
+    unfold Inv in *; cbn; auto;
+    try (eapply Iraw_upd; eauto; pose proof (proj2 HI _ _ Hn) as Ho; okl_fin c s l lp; fail).
+  - rewrite Hc in HI. now apply Iraw_close.
+  - (* nested request: the handler's own loop is marked waiting, then TryToReplaceLoop runs *)
+    apply PreInv_try_replace. cbn. eapply PreInv_upd; eauto using Inv_PreInv.
+    pose proof (proj2 HI _ _ Hn) as Ho. okl_crush.
+    destruct (Nat.eqb l (cur s)), (l_done lp), (l_reading lp), (fixed c), (closed s);
+      cbn in *; try discriminate; repeat split; auto; try discriminate.
+Qed.
+
+(* ------------------------------------------------------------------ *)
+(* Invariant G: conservation of messages.  Every message handed to the producer is in exactly one
+   place: still to be pushed, in the queue, held by a loop between dequeue and dispatch, or in the log. *)
+
+Definition held_of (lp : loop) : list Z :=
+  match l_pc lp with PDeq m | PBusy m => [m] | _ => [] end.
+Definition held (ls : list loop) : list Z := flat_map held_of ls.
+Arguments held : simpl never.
+
+Definition Graw (msgs : list Z) (q p : list Z) (ls : list loop) (lg : list (Z * nat)) : Prop :=
+  Permutation msgs (map fst lg ++ held ls ++ q ++ p).
+Definition GInv (msgs : list Z) (s : st) : Prop := Graw msgs (queue s) (prod s) (loops s) (log s).
+
+Lemma held_app a b : held (a ++ b) = held a ++ held b.
+Proof. unfold held. apply flat_map_app. Qed.
+
+Lemma held_cons x l : held (x :: l) = held_of x ++ held l.
+Proof. reflexivity. Qed.
+
+Lemma held_upd_same l lp x ls :
+  nth_error ls l = Some lp -> held_of x = held_of lp -> held (upd l x ls) = held ls.
+Proof.
+  intros Hn Hh. destruct (upd_split _ _ _ Hn) as (a & b & E & U).
+  rewrite U, E. rewrite !held_app, !held_cons. now rewrite Hh.
+Qed.
+
+Lemma held_upd l lp x ls :
+  nth_error ls l = Some lp ->
+  exists a b, held ls = a ++ held_of lp ++ b /\ held (upd l x ls) = a ++ held_of x ++ b.
+Proof.
+  intros Hn. destruct (upd_split _ _ _ Hn) as (a & b & E & U).
+  exists (held a), (held b). rewrite U, E. rewrite !held_app, !held_cons. auto.
+Qed.
+
+Lemma held_try_replace s : held (loops (try_replace s)) = held (loops s).
+Proof.
+  destruct (try_replace_cases s) as [->|(lc & Hn & Hr & ->)]; auto.
+  cbn. rewrite held_app. change (held [mkLoop false true PSelect]) with (@nil Z). rewrite app_nil_r. eapply held_upd_same; eauto.
+Qed.
+
+Lemma try_replace_fields s :
+  queue (try_replace s) = queue s /\ prod (try_replace s) = prod s /\ log (try_replace s) = log s /\
+  commits (try_replace s) = commits s /\ closed (try_replace s) = closed s /\ ext (try_replace s) = ext s.
+Proof. destruct (try_replace_cases s) as [->|(lc & Hn & Hr & ->)]; cbn; auto 10. Qed.
+
+Lemma GInv_try_replace msgs s : GInv msgs s -> GInv msgs (try_replace s).
+Proof.
+  unfold GInv, Graw. destruct (try_replace_fields s) as (-> & -> & -> & _). now rewrite held_try_replace.
+Qed.
+
+Lemma GInv_step c msgs s a s' : GInv msgs s -> step c s a = Some s' -> GInv msgs s'.
+Proof.
+  intros HG HS. apply step_Step in HS.
+  destruct HS as [m r Hp Hl | Hc | k He | l lp Hn Hpc Hd | l lp Hn Hpc Hcl | l lp m q Hn Hpc Hq
+                 | l lp m a Hn Hpc | l lp m a Hn Hpc | l lp m a Hn Hpc | l lp m ops a Hn Hpc
+                 | l lp m r ops a Hn Hpc | l lp m r ops a Hn Hpc Hdl | l lp a Hn Hpc];
+    try apply GInv_try_replace; unfold GInv, Graw in *; cbn;
+    try (erewrite held_upd_same; [exact HG | exact Hn | unfold held_of; cbn; rewrite Hpc; reflexivity]).
+  - (* push *) rewrite Hp in HG. rewrite <- !app_assoc. cbn. exact HG.
+  - exact HG.
+  - exact HG.
+  - (* select: queue -> held *)
+    rewrite Hq in HG. destruct (held_upd l lp (mkLoop (l_done lp) (l_reading lp) (PDeq m)) _ Hn) as (a & b & E & U).
+    rewrite U. rewrite E in HG. unfold held_of in *. rewrite Hpc in HG. cbn in *.
+    eapply Permutation_trans; [exact HG|].
+    apply Permutation_app_head. rewrite <- !app_assoc. apply Permutation_app_head. cbn.
+    apply Permutation_sym, Permutation_middle.
+  - (* dispatch: held -> log *)
+    destruct (held_upd l lp (mkLoop (l_done lp) (l_reading lp) (PRun m (hp c m))) _ Hn) as (a0 & b & E & U).
+    rewrite U. rewrite E in HG. unfold held_of in *. rewrite Hpc in HG. cbn in *. rewrite map_app. cbn.
+    eapply Permutation_trans; [exact HG|].
+    rewrite <- !app_assoc. apply Permutation_app_head. cbn.
+    apply Permutation_sym, Permutation_middle.
+  - erewrite held_upd_same; [exact HG | exact Hn |].
+    unfold held_of; cbn; rewrite Hpc. now destruct (fixed c && l_done lp).
+Qed.
